@@ -167,7 +167,9 @@ Definition forward (lg : elog) (c : cursor) : res cursor :=
 
 (* ---- Function.forward: the parent chain ---- *)
 
-Record func := Func { f_ast : Z; f_log : option elog }.
+(* f_tree is the program text itself (what a cursor of this program resolves
+   against); Function.forward does not look at it *)
+Record func := Func { f_ast : Z; f_tree : list stmt; f_log : option elog }.
 (* a chain is self :: parent :: grand-parent :: ... *)
 
 (*  logs = []; f = self
